@@ -23,16 +23,8 @@ def call(name, *args):
     return ("call", name, tuple(args))
 
 
-def run(chk, tier):
-    prog, info = common.program("all")
-    common.note_extraction(chk, info, prog)
-    common.vacuity(chk, ['R-TABLE'])
-    chk.explanation = ("Framing is decided from value-numbered summaries: MessageHeader's wire size (28 = size_of, R-LAYOUT) fixes the frame body at 2432 - 28 bytes; "
-                       "decode_message_contents either hands type 31 to the stream decoder or reads exactly one frame body *before* any dispatch and gives the "
-                       "status/VCP decoders the frame buffer, never the stream, with every other type yielding the opaque placeholder; decode_messages leaves its "
-                       "loop normally only when a header can no longer be read, propagates every body error, and pushes exactly one Message(header, contents of "
-                       "that header's type) per iteration in order; the type-31 decoder performs no seek after its last block read.")
-    chk.trust("Read::read_exact consumes exactly the buffer length or fails; bincode reads exactly the struct's wire size")
+def framing(chk, prog):
+    """the stream-level obligations (also carried by C01: a message the stream loop drops or misframes is a radial lost)"""
     layout.check_struct(chk, prog, MH)
     ev = sym.Evaluator(prog, opaque_local=[T31, STATUS, VCP])
     reader, mt = P("reader"), P("message_type")
@@ -156,3 +148,16 @@ def run(chk, tier):
     if f31 is not None:
         c02.gate_buffer(chk, prog)
         c02.loop_checks(chk, prog, f31, P(f31.local_name(1) or "reader"), only_tail=True)
+
+
+def run(chk, tier):
+    prog, info = common.program("all")
+    common.note_extraction(chk, info, prog)
+    common.vacuity(chk, ['R-TABLE'])
+    chk.explanation = ("Framing is decided from value-numbered summaries: MessageHeader's wire size (28 = size_of, R-LAYOUT) fixes the frame body at 2432 - 28 bytes; "
+                       "decode_message_contents either hands type 31 to the stream decoder or reads exactly one frame body *before* any dispatch and gives the "
+                       "status/VCP decoders the frame buffer, never the stream, with every other type yielding the opaque placeholder; decode_messages leaves its "
+                       "loop normally only when a header can no longer be read, propagates every body error, and pushes exactly one Message(header, contents of "
+                       "that header's type) per iteration in order; the type-31 decoder performs no seek after its last block read.")
+    chk.trust("Read::read_exact consumes exactly the buffer length or fails; bincode reads exactly the struct's wire size")
+    framing(chk, prog)
